@@ -7,7 +7,7 @@ pid, rule, name, key, file, old, new = sys.argv[1:8]
 note = sys.argv[8] if len(sys.argv) > 8 else ""
 old = old.encode().decode("unicode_escape"); new = new.encode().decode("unicode_escape")
 src = open("/repo/src/" + file).read()
-if src.count(old) != 1:
+if src.count(old) != 1 and not (os.environ.get("MKWIT_ALL") and src.count(old) > 1):
     sys.exit("OLD occurs %d times in %s" % (src.count(old), file))
 mod = src.replace(old, new)
 def _lines(t):
